@@ -7,7 +7,7 @@ set_option linter.unusedSimpArgs false
 
 /-- `WF` does not read the fields that changed. -/
 macro "wf_same " h:term : tactic =>
-  `(tactic| exact ⟨($h).net, ($h).ch, ($h).tx, ($h).rx, ($h).rcReq, ($h).rcResp, ($h).sack⟩)
+  `(tactic| exact ⟨($h).net, ($h).ch, ($h).tx, ($h).rx, ($h).rcReq, ($h).rcResp, ($h).sack, ($h).nr⟩)
 
 /-! ## timers -/
 
@@ -128,7 +128,7 @@ theorem wp_setState_closed {A} {Q : Unit → St → Prop} {e : Ep} {l : List Out
                          tx := { e.tx with t3 := false }, rcTimer := false, state := "closed",
                          reconfigQueue := [], reconfigRequest := none } :=
     ⟨h.net, ⟨h.ch.dcIdx, h.ch.dcKeys, h.ch.qIdx, h.ch.qId, h.ch.qRel, h.ch.qPpid, h.ch.sid, by simp⟩, htx, h.rx,
-     h.rcReq, h.rcResp, h.sack⟩
+     h.rcReq, h.rcResp, h.sack, h.nr⟩
   refine wp_forIn A _ _ _ (fun suf s' => WF s'.1 ∧ s'.1.dataChannels = suf ∧
     s'.1.rwnd = e.rwnd ∧ s'.1.inStreams = e.inStreams) _ ⟨hw0, rfl, rfl, rfl⟩ ?_ ?_
   · intro ⟨sid, i⟩ rest ⟨e1, l1⟩ ⟨hw, hdc, hr, hi⟩
@@ -154,14 +154,14 @@ theorem wp_setState_closed {A} {Q : Unit → St → Prop} {e : Ep} {l : List Out
     · intro ⟨e2, l2⟩ ⟨hw2, _, hr2, hi2⟩
       simp only [wp_modE]
       refine hq _ _ ?_ hr2 hi2
-      exact ⟨hw2.net, hw2.ch.subQ (q' := []) (by simp), hw2.tx, hw2.rx, hw2.rcReq, hw2.rcResp, hw2.sack⟩
+      exact ⟨hw2.net, hw2.ch.subQ (q' := []) (by simp), hw2.tx, hw2.rx, hw2.rcReq, hw2.rcResp, hw2.sack, hw2.nr⟩
 
 /-! ## closing channels, stream resets -/
 
 theorem WF.pushRcq {e : Ep} (h : WF e) {sid : Nat} (hs : sid < 65536) :
     WF { e with reconfigQueue := e.reconfigQueue ++ [sid] } := by
   refine ⟨h.net, ⟨h.ch.dcIdx, h.ch.dcKeys, h.ch.qIdx, h.ch.qId, h.ch.qRel, h.ch.qPpid, h.ch.sid, ?_⟩, h.tx, h.rx,
-    h.rcReq, h.rcResp, h.sack⟩
+    h.rcReq, h.rcResp, h.sack, h.nr⟩
   intro s hs'
   rcases List.mem_append.mp hs' with hs' | hs'
   · exact h.ch.rcq s hs'
@@ -200,7 +200,7 @@ theorem wp_dcClose {A} {i : Nat} {Q : Unit → St → Prop} {e : Ep} {l : List O
       simp only [wp_bind, wp_setE]
       have hw2 : WF { e with chans := cs, dcQueue := e.dcQueue.filter fun q => q.1 != i } :=
         ⟨hw1.net, hw1.ch.subQ (fun x hx => (List.mem_filter.mp hx).1), hw1.tx, hw1.rx, hw1.rcReq, hw1.rcResp,
-         hw1.sack⟩
+         hw1.sack, hw1.nr⟩
       split
       · rename_i sid hsid
         have hnotest : e.assoc ≠ .established := by
@@ -296,7 +296,7 @@ theorem wp_receiveReconfigParam {A} {p : RcParam} {Q : Unit → St → Prop} {e 
           · intro ⟨e1, l1⟩ ⟨hw, hacc, hsok, hest1⟩
             simp only [wp_modE, wp_bind]
             have hw1 : WF { e1 with reconfigResponseSeq := reqSeq } :=
-              ⟨hw.net, hw.ch, hw.tx, hw.rx, hw.rcReq, inRange32_ofNat hr1, hw.sack⟩
+              ⟨hw.net, hw.ch, hw.tx, hw.rx, hw.rcReq, inRange32_ofNat hr1, hw.sack, hw.nr⟩
             refine wp_sendReconfigResponse hw1 hr1 ?_
             intro l'; exact hq _ _ hw1 hacc hsok hest1
   | addOut reqSeq n =>
@@ -304,7 +304,7 @@ theorem wp_receiveReconfigParam {A} {p : RcParam} {Q : Unit → St → Prop} {e 
     unfold receiveReconfigParam
     simp only [wp_bind, wp_modE]
     have hw1 : WF { e with inboundCount := e.inboundCount + n, reconfigResponseSeq := reqSeq } :=
-      ⟨h.net, h.ch, h.tx, h.rx, h.rcReq, inRange32_ofNat hr1, h.sack⟩
+      ⟨h.net, h.ch, h.tx, h.rx, h.rcReq, inRange32_ofNat hr1, h.sack, h.nr⟩
     refine wp_sendReconfigResponse hw1 hr1 ?_
     intro l'; exact hq _ _ hw1 ha hso hest
   | resetResp respSeq result =>
